@@ -9,7 +9,7 @@ CONSTANTS Stride, Deep
 VARIABLES v_lvl, v_idx
 
 Ctx == ("x" :> IntV(5)) @@ ("arr" :> Arr(<<IntV(1), IntV(2), IntV(3)>>)) @@ ("empty" :> Arr(<<>>))
-       @@ ("h" :> Hash(<< <<S2B("k"), IntV(2)>> >>)) @@ ("n" :> Null) @@ ("t" :> Bool(TRUE)) @@ ("f" :> Bool(FALSE))
+       @@ ("h" :> Hash(<< <<S2B("k"), IntV(2)>> >>)) @@ ("n" :> Null) @@ ("t" :> Bool(TRUE)) @@ ("f" :> Bool(FALSE)) @@ ("quarter" :> Num(16)) @@ ("zero" :> IntV(0))
        @@ ("strs" :> Arr(<<Str(S2B("a")), Str(S2B("b"))>>))
        @@ ("nest" :> Arr(<<Arr(<<IntV(1), IntV(2)>>), Arr(<<>>), Arr(<<IntV(3)>>)>>))
 
@@ -31,7 +31,8 @@ KV == <<P(NameE("k")), Sep("="), P(NameE("v")), Sep(";")>>
 
 Conds == { <<BoolE(TRUE), "T">>, <<BoolE(FALSE), "F">>, <<Bin(">", NameE("v"), IntE(1)), ">1">>,
            <<TestE(NameE("v"), FALSE, "odd", <<>>), "odd">>, <<Bin("==", NameE("v"), IntE(8)), "=8">>,
-           <<Bin("<", L("index0"), IntE(2)), "loop<2">>, <<Un("not", L("first")), "notfirst">>, <<L("last"), "last">> }
+           <<Bin("<", L("index0"), IntE(2)), "loop<2">>, <<Un("not", L("first")), "notfirst">>, <<L("last"), "last">>,
+           <<Bin("/", L("index0"), IntE(4)), "index0/4">>, <<NameE("quarter"), "quarter">> }
 
 C1(s, he)      == [tag |-> "for-fields", n |-> s[2],
                    body |-> <<ForS("", "v", s[1], NoE, <<P(NameE("v")), Sep(":")>> \o AllFields, IF he THEN <<Text("E")>> ELSE <<>>, he)>>]
@@ -67,9 +68,16 @@ C6             == [tag |-> "for-nest", n |-> 3,
 CondFor(bit, k) == CASE k = 1 -> BoolE(bit) [] k = 2 -> NameE(IF bit THEN "t" ELSE "f")
                      [] k = 3 -> Bin(IF bit THEN ">" ELSE "<", NameE("x"), IntE(3))
                      [] OTHER -> IF bit THEN StrE("a") ELSE StrE("")
+(* conditions that are numbers, not booleans: every positive number is truthy, fractions included; zero and null are not *)
+CondNum(bit, k) == CASE k = 1 -> (IF bit THEN NumE(32) ELSE IntE(0)) [] k = 2 -> NameE(IF bit THEN "quarter" ELSE "zero")
+                     [] k = 3 -> (IF bit THEN Bin("/", IntE(1), IntE(4)) ELSE Bin("-", IntE(2), IntE(2)))
+                     [] OTHER -> IF bit THEN NumE(96) ELSE NullE
 Label(k) == <<Text(CASE k = 1 -> "A" [] k = 2 -> "B" [] k = 3 -> "C" [] OTHER -> "D")>>
 CIf(bits, he)  == [tag |-> "ifchain", n |-> Len(bits), bits |-> bits, he |-> he,
                    body |-> <<Text("<"), IfChain([k \in 1..Len(bits) |-> [c |-> CondFor(bits[k], k), body |-> Label(k)]],
+                                                 IF he THEN <<Text("Z")>> ELSE <<>>, he), Text(">")>>]
+CIfNum(bits, he) == [tag |-> "ifchain", n |-> Len(bits), bits |-> bits, he |-> he,
+                   body |-> <<Text("<"), IfChain([k \in 1..Len(bits) |-> [c |-> CondNum(bits[k], k), body |-> Label(k)]],
                                                  IF he THEN <<Text("Z")>> ELSE <<>>, he), Text(">")>>]
 BitSeqs == UNION {[1..k -> BOOLEAN] : k \in 1..4}
 (* nested: if inside if, for inside if *)
@@ -122,7 +130,7 @@ CaseSet ==
   \cup {C3(s, c, he) : s \in Seqs, c \in Conds, he \in BOOLEAN}
   \cup {C4(s1, s2) : s1 \in Iterables, s2 \in Seqs} \cup {C5(s) : s \in Seqs} \cup {C6}
   \cup {CErr(s, k) : s \in Iterables, k \in 1..3}
-  \cup {CIf(bits, he) : bits \in BitSeqs, he \in BOOLEAN}
+  \cup {CIf(bits, he) : bits \in BitSeqs, he \in BOOLEAN} \cup {CIfNum(bits, he) : bits \in BitSeqs, he \in BOOLEAN}
   \cup {CNest(b1, b2, s) : b1 \in BOOLEAN, b2 \in BOOLEAN, s \in Seqs}
   \cup (IF Deep THEN {CDeep(s1, s2, b) : s1 \in Iterables, s2 \in Seqs, b \in BOOLEAN} ELSE {})
 Cases == SetToSeq(CaseSet)
